@@ -21,7 +21,7 @@ PROPS = [f"C{i:02d}" for i in range(1, 21)]
 
 def load_corpus():
     out = []
-    for fn, kind in (("mutants1.py", "mutant"), ("mutants2.py", "mutant"), ("mutants3.py", "mutant"), ("mutants4.py", "mutant"),
+    for fn, kind in (("mutants1.py", "mutant"), ("mutants2.py", "mutant"), ("mutants3.py", "mutant"), ("mutants4.py", "mutant"), ("mutants5.py", "mutant"),
                      ("twins.py", "twin"), ("twins2.py", "twin")):
         p = os.path.join(HERE, "corpus", fn)
         if not os.path.exists(p):
